@@ -229,6 +229,12 @@ def main():
         sp_sort = [E(b"a", "file", content=comp_txt("a", 300)), E(b"b", "file", content=comp_txt("b", 700)), E(b"c", "file", content=comp_txt("c", 1100)),
                    E(b"zbig", "file", content=comp_txt("zbig", 20 * B + 7)), E(b"zz", "file", content=comp_txt("zz", 2 * B + 50)), E(b"zzz", "file", content=comp_txt("zzz", 90))]
         inputs.append(("sort-flags", sp_sort))
+        # incompressible full blocks between compressible ones: a compressor instance that is left in a bad state by a block it could not shrink
+        # treats its later blocks differently - which blocks those are depends on the worker that got it
+        sp_mix = []
+        for i in range(10):
+            sp_mix.append(E(b"x%02d" % i, "file", content=(content_pattern("mx%d" % i, B) if i % 3 == 0 else comp_txt("x%d" % i, 3 * B + 11 * i))))
+        inputs.append(("mixed-compressibility", sp_mix))
         SORTS = {"sort-flags": b"0 [dont_compress] zbig\n1 [dont_fragment] zz\n"}
         if not cr.quick:
             inputs.append(("frag-overflow", scenarios.spec_frag()))
